@@ -367,13 +367,24 @@ func (a *sparseArrayObject) _defineIdxProperty(idx uint32, desc PropertyDescript
 					a.length = idx + 1
 				}
 			} else {
-				a.val.self.(*arrayObject).values[idx] = prop
+				ar := a.val.self.(*arrayObject)
+				ar.values[idx] = prop
+				ar.objCount++
+				if _, isProp := prop.(*valueProperty); isProp {
+					ar.propValueCount++
+				}
+				return ok
 			}
 		} else {
 			a.items[i].value = prop
 		}
-		if _, ok := prop.(*valueProperty); ok {
-			a.propValueCount++
+		_, isProp := prop.(*valueProperty)
+		if _, wasProp := existing.(*valueProperty); wasProp != isProp {
+			if isProp {
+				a.propValueCount++
+			} else {
+				a.propValueCount--
+			}
 		}
 	}
 	return ok
